@@ -1284,6 +1284,9 @@ func (o *ovsdbClient) handleDisconnectNotification() {
 	o.rpcMutex.Lock()
 	if o.options.reconnect && !o.shutdown {
 		o.rpcClient = nil
+		// endpoints is protected by rpcMutex (UpdateEndpoints can replace it
+		// at any time), read what we need before releasing it
+		lostEndpoint := o.endpoints[0].address
 		o.rpcMutex.Unlock()
 		suppressionCounter := 1
 		connect := func() error {
@@ -1308,7 +1311,7 @@ func (o *ovsdbClient) handleDisconnectNotification() {
 			suppressionCounter++
 			return err
 		}
-		o.logger.V(3).Info("connection lost, reconnecting", "endpoint", o.endpoints[0].address)
+		o.logger.V(3).Info("connection lost, reconnecting", "endpoint", lostEndpoint)
 		err := backoff.Retry(connect, o.options.backoff)
 		if err != nil {
 			// TODO: We should look at passing this back to the
